@@ -196,6 +196,10 @@ impl Sim {
     }
 
     fn emit(&mut self, mut ev: J) {
+        let tags: Vec<(String, String)> = { BATON.m.lock().unwrap().tags.drain(..).collect() };
+        for (k, v) in tags {
+            self.out.push(json!({"ev":"tag","run":self.run,"name":k,"value":v}));
+        }
         ev["run"] = json!(self.run);
         self.out.push(ev);
     }
@@ -730,8 +734,32 @@ pub fn run_case(case: &J, workdir: &str, out: &mut dyn Write, n: usize) -> Resul
     };
     let ops = case["ops"].as_array().unwrap_or(&empty);
     let policy = case["policy"].as_str().unwrap_or("fifo").to_string();
+    let form_policy = case["formation_policy"].as_str().unwrap_or("fifo").to_string();
     let mut next_client = ops.len(); // no client command during formation
-    let quiet = run_until_quiet(&mut sim, &mut rng, "fifo", &mut steps, &mut next_client, ops.len(), case, false)?;
+    let mut quiet = run_until_quiet(&mut sim, &mut rng, &form_policy, &mut steps, &mut next_client, ops.len(), case, false)?;
+    if form == "join" && quiet {
+        // start_inital_election: one second after start-up a node that is still eligible runs an election
+        for name in names.iter() {
+            let i = sim.idx(name).unwrap();
+            if sim.nodes[i].node.dbs.is_eligible() {
+                let dbs = sim.nodes[i].node.dbs.clone();
+                let dir = sim.nodes[i].node.dir.clone();
+                let tid = sim.new_task(TaskKind::Disconnect(name.clone(), "initial-election".to_string()));
+                sim.emit(json!({"ev":"initial_election","node":name}));
+                let r = run_task(tid, dir, move || {
+                    nundb::election_ops::start_election(&dbs);
+                    json!({"cls":"ok"})
+                })?;
+                if let Some(r) = r {
+                    sim.finish_task(tid, r);
+                } else {
+                    sim.emit(json!({"ev":"suspended","task":tid}));
+                }
+                let mut nc = ops.len();
+                quiet = run_until_quiet(&mut sim, &mut rng, &form_policy, &mut steps, &mut nc, ops.len(), case, false)?;
+            }
+        }
+    }
     let st = sim.snapshot_state();
     let sent0 = sim.sent;
     sim.emit(json!({"ev":"formed","quiet":quiet,"state":st,"steps":steps}));
@@ -788,6 +816,9 @@ pub fn main(args: &[String]) {
     silence_panics();
     nundb::verif::set_yield_hook(Some(Arc::new(|site: &str| on_yield(site))));
     nundb::verif::set_link_hook(Some(Arc::new(|ls: LinkStart| link_hook(ls))));
+    nundb::verif::set_tag_hook(Some(Arc::new(|name: &str, value: &str| {
+        BATON.m.lock().unwrap().tags.push((name.to_string(), value.to_string()));
+    })));
     for (n, line) in std::io::BufReader::new(cases).lines().enumerate() {
         let line = line.unwrap();
         if line.trim().is_empty() {
